@@ -33,6 +33,8 @@ pub struct Snap {
     pub sketch_enabled: bool,
     pub sketch_resets: u32,
     pub read_q: usize,
+    /// capacity of the read operation queue (concurrent cache; 0 otherwise)
+    pub read_q_cap: usize,
     pub write_q: usize,
     pub sync_running: bool,
 }
@@ -341,6 +343,7 @@ pub fn sync_snapshot<S: std::hash::BuildHasher + Clone>(cache: &mini_moka::sync:
     s.sketch_resets = cache.verif_sketch_resets();
     let (r, w) = cache.verif_channel_lens();
     s.read_q = r;
+    s.read_q_cap = cache.verif_read_queue_capacity();
     s.write_q = w;
     s.sync_running = cache.verif_is_sync_running();
     s
